@@ -79,14 +79,122 @@ def consume(session: Any, mode: str, behaviour: str, k: int, fs: Any) -> Dict[st
     return {"items": out, "error": err, "events": events}
 
 
+def ordered_canon(tables: Optional[List[Any]], keep_column_order: bool) -> Any:
+    out = []
+    for t in tables or []:
+        cols = F.to_columns(t)
+        names = list(cols) if keep_column_order else sorted(cols)
+        out.append([type(t).__name__, [[c, cols[c]] for c in names]])
+    return sorted(out, key=lambda x: json.dumps(x, default=str))
+
+
+def api_args_suite(ctx: Ctx) -> None:
+    """stream_all against run_all "with the same arguments": every argument that changes what run_all returns (or whether it
+    raises) must change the stream the same way - column_ordering, strict_type_enforcement, global_filter, api_data, links,
+    compute_frameworks, function_extender, parallelization_modes."""
+    from mloda.user import mloda, stream_all, GlobalFilter, Feature, DataType
+    from mloda.steward import Extender, ExtenderHook
+    from mloda_plugins.feature_group.input_data.api_data.api_data import ApiInputDataFeature
+
+    class Counting(Extender):
+        def __init__(self) -> None:
+            self.calls = 0
+
+        def wraps(self) -> Any:
+            return {ExtenderHook.FEATURE_GROUP_CALCULATE_FEATURE}
+
+        def __call__(self, func: Any, *args: Any, **kwargs: Any) -> Any:
+            self.calls += 1
+            return func(*args, **kwargs)
+
+    for _ in range(ctx.budget(40, 600)):
+        kind = ctx.rng.choice(["dag", "dag", "dag", "link", "api"])
+        kw: Dict[str, Any] = {}
+        varied: List[str] = []
+        if kind == "link":
+            spec = S.gen_link_spec(ctx.rng, frameworks=("pa",), nsrc=2, jointypes=("inner", "left", "outer"))
+            classes, links, feats, fws = S.build_link_request(spec)
+            kw.update(links=links, compute_frameworks=fws, plugin_collector=F.collector(set(classes.values())))
+            features: List[Any] = list(feats)
+            varied.append("links")
+        elif kind == "api":
+            uid = F.uniq("")
+            cols = {f"ap{uid}_{i}": [ctx.rng.randint(0, 9) for _ in range(3)] for i in range(ctx.rng.randint(2, 4))}
+            kw.update(api_data={f"Key{uid}": cols}, compute_frameworks={F.FW_SHORT[ctx.rng.choice(["pa", "pd", "py"])]}, plugin_collector=F.collector({ApiInputDataFeature}))
+            features = ctx.rng.sample(list(cols), ctx.rng.randint(2, len(cols)))
+            spec = {"api_data": {f"Key{uid}": cols}, "request": features}
+            varied.append("api_data")
+        else:
+            fw = ctx.rng.choice(["pa", "pa", "pd", "py"])
+            spec = S.gen_spec(ctx.rng, max_feats=6, frameworks=(fw,), allow_options=False)
+            names = [f for g in spec["groups"] for f in g["features"]] + list(spec["roots"][0]["cols"])
+            spec["request"] = [{"name": nm, "options": {}} for nm in ctx.rng.sample(names, min(len(names), ctx.rng.randint(2, 5)))]
+            classes = S.build_classes(spec)
+            kw.update(compute_frameworks=S.frameworks_of(spec), plugin_collector=F.collector(set(classes.values())))
+            features = []
+            typed = fw == "pa" and ctx.rng.random() < 0.4
+            for rq in spec["request"]:
+                if typed and rq["name"] in spec["roots"][0]["cols"] and all(v is not None for v in spec["roots"][0]["cols"][rq["name"]]):
+                    rq["dtype"] = ctx.rng.choice(["INT64", "INT32", "DOUBLE"])
+                    features.append(Feature(rq["name"], data_type=DataType[rq["dtype"]]))
+                else:
+                    features.append(rq["name"])
+            if typed:
+                kw["strict_type_enforcement"] = ctx.rng.random() < 0.6
+                varied.append("strict_type_enforcement")
+            rootcols = [c for c, v in spec["roots"][0]["cols"].items() if all(x is not None for x in v)]
+            if fw in ("pa", "pd") and rootcols and ctx.rng.random() < 0.35:
+                gf = GlobalFilter()
+                fc = ctx.rng.choice(rootcols)
+                gf.add_filter(fc, "min", {"value": ctx.rng.randint(-3, 6)})
+                kw["global_filter"] = gf
+                spec["global_filter"] = [fc, "min"]
+                varied.append("global_filter")
+        ordering = ctx.rng.choice([None, "alphabetical", "alphabetical", "request_order", "request_order"])
+        if ordering:
+            kw["column_ordering"] = ordering
+            varied.append("column_ordering")
+        mode = ctx.rng.choice(["sync", "sync", "thread"])
+        kw["parallelization_modes"] = {S.MODES[mode]}
+        use_ext = ctx.rng.random() < 0.3
+        outs = []
+        for api in ("run_all", "stream_all"):
+            ext = Counting()
+            kw2 = dict(kw)
+            if use_ext:
+                kw2["function_extender"] = {ext}
+            fin, res = S.guarded(lambda: (mloda.run_all(list(features), **kw2) if api == "run_all" else list(stream_all(list(features), **kw2))), 60)
+            if not fin:
+                outs.append({"timeout": True})
+            elif isinstance(res, BaseException):
+                outs.append({"error": type(res).__name__})
+            else:
+                outs.append({"tables": ordered_canon(res, ordering is not None), "extender_calls": ext.calls})
+        if use_ext:
+            varied.append("function_extender")
+        case = {"spec": spec, "kind": kind, "args": {k_: (sorted(str(x) for x in v) if isinstance(v, set) else str(v))[:200] for k_, v in kw.items() if k_ not in ("plugin_collector", "links", "api_data")},
+                "features": [str(f) for f in features]}  # fmt: skip
+        multi_col = any(len(t[1]) >= 2 for o in outs if "tables" in o for t in o["tables"])
+        ctx.case("api_args", case, bool(varied) and (multi_col or "error" in outs[0]), kind=kind, ordering=str(ordering), mode=mode,
+                 outcome=next(iter(outs[0])), varied="+".join(sorted(varied)) or "-")  # fmt: skip
+        if mode == "thread" and outs[0] != outs[1] and ("error" in outs[0] or "error" in outs[1]):
+            # the THREADING lost update makes single runs fail at random; it is C06's finding, not a difference between the two APIs
+            ctx.tag("api_args_thread_error_not_compared", 1)
+            continue
+        if outs[0] != outs[1]:
+            ctx.violation("api_args", case, "stream_all and run_all with the same arguments differ (tables with column order / raised error / extender calls)", outs[1], outs[0])
+
+
 def run(ctx: Ctx) -> None:
     ctx.extra["rule"] = (
-        "history differential: generated requests (link-free DAGs with several result steps, two-source joins) x mode x consumer behaviour "
+        "api_args: run_all vs list(stream_all) with identical argument sets (column_ordering, strict_type_enforcement, global_filter, api_data, links, frameworks, "
+        "extenders, modes): same tables incl. column order, same error class, same extender call count; history differential: generated requests (link-free DAGs with several result steps, two-source joins) x mode x consumer behaviour "
         "(drain | stop after k then close | stop after k then drop the generator | throw into the generator) x repeated streamed runs on one session; "
         "the multiset of yielded tables must equal the batch result of session.run, every item must be one complete step table, nothing twice, and after "
         "every behaviour no worker thread/process of the run may stay alive; the drained trace is also accepted by the Lean model whose `yielded` is a "
         "permutation of `results`; non-trivial = >=2 result tables and (early stop or a repeated run)"
     )
+    api_args_suite(ctx)
     S.install_step_observers()
     n = ctx.budget(70, 1200)
     base_threads = {t.ident for t in threading.enumerate()}
